@@ -40,11 +40,11 @@ def apply(model: Model, mu: M) -> str | None:
         if getattr(node, "decorator_list", None):
             start = min(d.lineno for d in node.decorator_list) - 1
         seg = "".join(lines[start : node.end_lineno])
-        if seg.count(mu.old) != mu.count:
+        if (seg.count(mu.old) != mu.count) if mu.count else (seg.count(mu.old) == 0):
             return None
         seg2 = seg.replace(mu.old, mu.new)
         return "".join(lines[:start]) + seg2 + "".join(lines[node.end_lineno :])
-    if text.count(mu.old) != mu.count:
+    if (text.count(mu.old) != mu.count) if mu.count else (text.count(mu.old) == 0):
         return None
     return text.replace(mu.old, mu.new)
 
